@@ -423,7 +423,7 @@ def r12_9(ctx: Ctx, rule: str = "R12.9") -> None:
     f = shared.szf(ctx, "_extract")
     cfg = cfg_of(f.node)
     regs = [c for c in q.calls(f) if attr_tail(c) == "register_filelike" and len(c.args) > 1 and isinstance(c.args[1], ast.Name)]
-    ctx.floor(rule, len(regs), 2, "registrations of real output paths in _extract")
+    ctx.floor(rule, len(regs), 1, "registrations of real output paths in _extract")
     cls = ctx.prog.cls("SevenZipFile", "py7zr")
 
     def identity(x: ast.AST) -> bool:
@@ -447,6 +447,15 @@ def r12_9(ctx: Ctx, rule: str = "R12.9") -> None:
         ctx.check(ok, rule, f, c, "an output path is registered only after it was compared with the open archive",
                   f"_extract registers `{path}` for writing without asking whether it is the archive that is being read: `extractall(path=<directory of the archive>)` of an archive that "
                   "holds a member named like itself overwrites the archive in a mode-'r' session and returns normally", construct="output path may be the archive")
+    # the comparison is with the file the path LEADS to (open() follows links): the identity helper looks at its argument with stat, not lstat
+    for m in [mm for mm in cls.methods.values() if any(isinstance(y, ast.Call) and attr_tail(y) in ("samestat",) for y in walk(mm.node))]:
+        ls = [y for y in walk(m.node) if isinstance(y, ast.Call) and attr_tail(y) == "lstat" and (
+            (y.args and any(isinstance(z, ast.Name) and z.id in m.params for z in ast.walk(y.args[0]))) or
+            (isinstance(y.func, ast.Attribute) and any(isinstance(z, ast.Name) and z.id in m.params for z in ast.walk(y.func.value))))]
+        ctx.check(not ls, rule, m, ls[0] if ls else m.node, f"{m.name} identifies the file a path leads to (stat, not lstat)",
+                  (f"`{norm(ls[0])}`: " if ls else "") + f"{m.name} compares the open archive with the path ITSELF, not with the file it leads to: a symbolic link in the destination that points to "
+                  "the archive is not recognised, the member named like the link is written through it and the mode-'r' session truncates the archive it reads",
+                  construct=f"{m.name} does not follow links")
 
 
 def run(ctx: Ctx) -> None:
@@ -457,6 +466,8 @@ def run(ctx: Ctx) -> None:
     closure = shared.read_closure(ctx)
     ctx.extra["closure_size"] = len(closure)
     r12_1(ctx, closure)
+    from . import c05 as _c05
+    _c05.countdown_by_delivered(ctx, closure, "R12.10")  # test() gives the same (right) verdict at any point of the session, also on handles that read short
     r12_2(ctx, closure)
     r12_3(ctx)
     r12_5(ctx, closure)
